@@ -52,6 +52,9 @@ def Hub.dump (h : Hub) (what : List String) : String :=
       | none => "none"
       | some (n, m) => s!"{n}|{showSigners m}"
     s!"counters ste={cs.lastSteId} batch={cs.lastBatchNonce} seq={cs.outSeq} set={cs.latestSetNonce} obs={cs.lastObserved} ch={cs.obsCosmosHeight} eh={cs.obsExtHeight} los={los}"
+  | ["tokens"] =>
+    -- the token list in its stored order: lookups take the first matching entry
+    "tokens " ++ joinWith ";" (h.tokens.map fun t => s!"{t.id}|{t.denom}|{t.chain}|{t.extId}|{t.dec}|{t.commission}")
   | ["status"] =>
     "status " ++ joinWith ";" (isort strLt (h.status.map fun p => s!"{p.1}={p.2.1}/{p.2.2}"))
       ++ " feerec " ++ joinWith ";" (isort strLt (h.feeRec.map fun p => s!"{p.1}={p.2.1}/{p.2.2}"))
@@ -126,6 +129,7 @@ def parseOp (line : String) : Op :=
   | ["reset"] => .reset
   | ["init"] => .init
   | ["chains", cs] => .chains (cs.splitOn ",")
+  | ["govchains", cs] => .chains (cs.splitOn ",")   -- a passed parameter-change proposal on mhub2/Chains
   | ["token", id, denom, chain, ext, dec, comm] =>
     match id.toNat?, dec.toNat?, comm.toInt? with
     | some i, some d, some c => .token (TokenInfo.mk i denom chain ext d c)
